@@ -439,8 +439,10 @@ fn validate(ctx: &Context<impl Channel>) -> Result<(), Error> {
     if p_out.is_empty() {
         return Err(Error::MissingOutputParties);
     }
-    for output_party in p_out {
-        if *output_party >= p_max {
+    for (i, output_party) in p_out.iter().enumerate() {
+        // an index that repeats an earlier one is invalid as well: the opening messages of the
+        // output phase are addressed per entry and would collide for a repeated party
+        if *output_party >= p_max || p_out[..i].contains(output_party) {
             return Err(Error::InvalidOutputParty(*output_party));
         }
     }
